@@ -205,6 +205,7 @@ impl Prop for C07 {
                 owns: progress_rule,
                 nontrivial: |r, _| r.stats.ops_done >= 3 && r.stats.writes > 0,
                 tweak: no_tweak,
+                case_tags: no_tags,
                 extra_classes: no_classes,
                 max_sched: 200,
                 max_extra: 0,
@@ -277,6 +278,7 @@ impl Prop for C18 {
                 owns: |v| v.rule == Rule::NeedFlush,
                 nontrivial: |r, _| r.stats.need_flush_false_samples > 0 && r.stats.writes > 0,
                 tweak: no_tweak,
+                case_tags: no_tags,
                 extra_classes: no_classes,
                 max_sched: 200,
                 max_extra: 0,
